@@ -696,6 +696,15 @@ func init() {
 
 func init() {
 	// optional stubs, enabled per path by the harness with vStub(name); each is listed in evidence
+	externals["github.com/valyala/fasthttp.normalizePath"] = func(fr *frame, a []value) value {
+		if fr.i.ps != nil && fr.i.ps.stubs["fasthttp.normalizePath=skip"] {
+			fr.i.stubsUsed["fasthttp.normalizePath=skip"] = true
+			// dst = append(dst[:0], src...) without normalisation
+			dst := a[0].([]value)
+			return fr.i.appendCells(dst[:0], a[1].([]value))
+		}
+		return notHandled{}
+	}
 	externals["html.EscapeString"] = func(fr *frame, a []value) value {
 		if fr.i.ps != nil && fr.i.ps.stubs["html.EscapeString=identity"] {
 			fr.i.stubsUsed["html.EscapeString=identity"] = true
